@@ -19,6 +19,7 @@ struct WMem {
   bool scale_written = false; // "*1" written explicitly
   bool scale_first = false;   // "2*rax" instead of "rax*2"
   bool has_disp = false; int64_t disp = 0; bool disp_hex = true;
+  int disp_pad = 0; // minimum number of digits of the displacement (zero padded, decimal too)
   int asize = 64;
   int kw = 0;     // written size keyword: 0 none, 8,16,32,64
   int width = 0;  // semantic access width (bits); 0 for lea
@@ -27,7 +28,7 @@ struct WImm {
   uint64_t v = 0;      // value as a 64-bit pattern
   bool neg = false;    // written with a leading '-' (magnitude = -v)
   bool hex = true;
-  int pad = 0;         // minimum number of hex digits (zero padded)
+  int pad = 0;         // minimum number of digits (zero padded; decimal spellings too: 010 is ten)
   int space = 64;      // the width at which the value is compared (8/16/32/64)
 };
 struct WOpd {
@@ -48,7 +49,7 @@ static inline WOpd wgpr(int reg, int width, bool high8 = false) { WOpd o; o.k = 
 static inline WOpd wvec(Kind k, int reg) { WOpd o; o.k = k; o.reg = reg; o.width = k == K_MMX ? 64 : k == K_XMM ? 128 : 256; return o; }
 static inline WOpd wmem(const WMem &m) { WOpd o; o.k = K_MEM; o.m = m; o.width = m.width; return o; }
 static inline WOpd wimm(uint64_t v, int space, bool hex = true, bool neg = false, int pad = 0) { WOpd o; o.k = K_IMM; o.imm.v = v; o.imm.space = space; o.imm.hex = hex; o.imm.neg = neg; o.imm.pad = pad; return o; }
-static inline WOpd wrel(int64_t d, bool hex) { WOpd o; o.k = K_REL; o.imm.v = (uint64_t)d; o.imm.hex = hex; o.imm.neg = d < 0; return o; }
+static inline WOpd wrel(int64_t d, bool hex, int pad = 0) { WOpd o; o.k = K_REL; o.imm.v = (uint64_t)d; o.imm.hex = hex; o.imm.neg = d < 0; o.imm.pad = pad; return o; }
 
 // ---------------- text ----------------
 static inline std::string regtext(const WOpd &o) { x86::Opd r; r.k = o.k; r.reg = o.reg; r.width = o.width; r.high8 = o.high8; return x86::regname(r); }
@@ -56,7 +57,7 @@ static inline std::string numtext(uint64_t v, bool neg, bool hex, int pad) {
   char b[48];
   uint64_t mag = neg ? (uint64_t)(0 - v) : v;
   if (hex) snprintf(b, sizeof b, "%s0x%0*llx", neg ? "-" : "", pad > 0 ? pad : 1, (unsigned long long)mag);
-  else snprintf(b, sizeof b, "%s%llu", neg ? "-" : "", (unsigned long long)mag);
+  else snprintf(b, sizeof b, "%s%0*llu", neg ? "-" : "", pad > 0 ? pad : 1, (unsigned long long)mag);
   return b;
 }
 static inline std::string memtext(const WMem &m) {
@@ -75,7 +76,7 @@ static inline std::string memtext(const WMem &m) {
   if (m.has_disp || !any) {
     bool neg = m.disp < 0;
     if (any) s += neg ? "-" : "+"; else if (neg) s += "-";
-    s += numtext((uint64_t)(neg ? -m.disp : m.disp), false, m.disp_hex, 0);
+    s += numtext((uint64_t)(neg ? -m.disp : m.disp), false, m.disp_hex, m.disp_pad);
   }
   s += "]";
   return s;
@@ -84,7 +85,7 @@ static inline std::string opdtext(const WOpd &o) {
   switch (o.k) {
     case K_MEM: return memtext(o.m);
     case K_IMM: return numtext(o.imm.v, o.imm.neg, o.imm.hex, o.imm.pad);
-    case K_REL: return numtext(o.imm.v, o.imm.neg, o.imm.hex, 0);
+    case K_REL: return numtext(o.imm.v, o.imm.neg, o.imm.hex, o.imm.pad);
     default: return regtext(o);
   }
 }
